@@ -148,6 +148,9 @@ def run(ctx) -> None:
         ("C12.R2-restartable-reasons-only", "self.run() is guarded by the restart context being RestartPossible/HookNotAvailable and "
                                             "every definition of an allowing (or hook-provided) context is made under "
                                             "'reason in restartHookOn' or 'reason == SubmissionFailed'"),
+        ("C12.R8-relaunch-from-clean-state", "every path of Engine.restart that reaches self.run() first resets (to None) the per-execution "
+                                            "fields that the exit-reason API reads (the task handle and the recorded exit reason): a kill "
+                                            "before the new task exists must be recorded as Killed, not as the previous task's reason"),
         ("C12.R3-counters", "restarts is incremented at most once per call, only after the budget test, and on every launch whose "
                             "reason is not SubmissionFailed; _resubmissionAttempts is incremented on every initiated SubmissionFailed "
                             "relaunch and reset only on Success"),
@@ -292,6 +295,35 @@ def run(ctx) -> None:
                "the hook's answer reaches the launch guard only through the normalisation (unknown values become "
                "RestartContextHookNotAvailable)" if ok else
                "the hook's raw answer can reach the launch guard without being normalised to a known restart context")
+
+    # ---------------- R8 -----------------------------------------------------------------------------
+    init = eng.func("Engine.__init__")
+    none_in_init = {t.attr for n in source.walk_own(init) if isinstance(n, (ast.Assign, ast.AnnAssign))
+                    for t in (n.targets if isinstance(n, ast.Assign) else [n.target])
+                    if isinstance(t, ast.Attribute) and isinstance(t.value, ast.Name) and t.value.id == "self"
+                    and isinstance(n.value, ast.Constant) and n.value.value is None}
+    api_reads = set()
+    for q in ("Engine._setExitReason", "Engine.exitReason", "Engine.returncode"):
+        f = eng.functions.get(q)
+        if f is None:
+            continue
+        ctx.analysed(f)
+        api_reads |= {x.attr for x in ast.walk(f) if isinstance(x, ast.Attribute) and isinstance(x.value, ast.Name) and x.value.id == "self"
+                      and isinstance(x.ctx, ast.Load)}
+    per_exec = sorted(none_in_init & api_reads)
+    ctx.floor("C12.R8-relaunch-from-clean-state", len(per_exec), 2, "per-execution fields read by the exit-reason API")
+    for attr in per_exec:
+        resets = [n for n in cfg.nodes if n.kind == "stmt" and isinstance(n.ast, ast.Assign) and isinstance(n.ast.value, ast.Constant)
+                  and n.ast.value.value is None and any(isinstance(t, ast.Attribute) and t.attr == attr and isinstance(t.value, ast.Name)
+                                                        and t.value.id == "self" for t in n.ast.targets)]
+        for rn in run_nodes:
+            ok = bool(resets) and cfg.every_path_to_passes(rn, gates=resets)
+            ctx.ob("C12.R8-relaunch-from-clean-state", rn.ast, ok,
+                   "self.%s is reset before the relaunch" % attr if ok else
+                   "self.run() is reached without resetting self.%s: until the new task exists (launch delay) the engine still holds the "
+                   "previous execution's %s, so a kill() in that window is recorded with the old exit reason (e.g. ResourceExhausted) "
+                   "instead of Killed and the component is restarted after having been killed" % (attr, attr),
+                   construct="self.%s = None before self.run() in Engine.restart" % attr)
 
     # ---------------- R3 -----------------------------------------------------------------------------
     incs = [n for n in cfg.nodes if n.kind == "stmt" and isinstance(n.ast, ast.AugAssign)
@@ -548,6 +580,31 @@ def run(ctx) -> None:
         ok = bool(t_zero) and match.only_via_edges(c4, s_, t_zero)
         ctx.ob("C12.R6-refusals", s_.ast, ok, "a repeating engine relaunches only when it has not restarted before" if ok else
                "a repeating engine can relaunch more than once", construct="thread start <- restarts == 0")
+        # the configured maximum is honoured as well (maxRestarts: 0 means "cannot restart at all")
+        maxr4 = match.locals_where(rr, lambda v: any(isinstance(c, ast.Constant) and c.value == "maxRestarts" for c in ast.walk(v))
+                                   and "workflowAttributes" in source.src(v))
+        budget4 = [(n, "F") for n in c4.nodes if n.kind == "test" and n.ast is not None and any(
+            exceeded_implies_bound(n.ast, "self.restarts", mx) for mx in maxr4)]
+        def unset_or_unlimited(t: ast.AST) -> Optional[str]:
+            """edge label on which no maximum applies: the option is None (unset: the engine's own 'at most once' rule remains) or -1"""
+            cp = match.compare_parts(t)
+            if not cp or not (isinstance(cp[0], ast.Name) and cp[0].id in maxr4):
+                return None
+            v = cp[2]
+            if isinstance(v, ast.Constant) and v.value is None:
+                return "T" if isinstance(cp[1], (ast.Is, ast.Eq)) else "F"
+            neg1 = (isinstance(v, ast.UnaryOp) and isinstance(v.op, ast.USub) and isinstance(v.operand, ast.Constant) and v.operand.value == 1) \
+                or (isinstance(v, ast.Constant) and v.value == -1)
+            if neg1:
+                return "T" if isinstance(cp[1], ast.Eq) else "F" if isinstance(cp[1], ast.NotEq) else None
+            return None
+        free4 = match.test_nodes(c4, unset_or_unlimited)
+        ok = bool(budget4) and match.only_via_edges(c4, s_, budget4 + free4)
+        ctx.ob("C12.R1-budget-dominates-launch", s_.ast, ok,
+               "the repeating engine's single restart is launched only on the not-exceeded side of the maxRestarts test" if ok else
+               "RepeatingEngine.restart launches without consulting workflowAttributes.maxRestarts: a repeating component declared with "
+               "'maxRestarts: 0' whose last task exits with ResourceExhausted is restarted once - more restarts than its maximum",
+               construct="RepeatingEngine.restart: thread start <- budget test")
         succ = [m for (m, l2) in s_.succ if l2 is None]
         r = c4.reach(succ, blocked=incs4, ignore_labels=("exc",))
         ok = bool(incs4) and c4.exit.id not in r
@@ -563,6 +620,7 @@ def run(ctx) -> None:
         any(isinstance(x, ast.Call) and last_attr(x) == "_restartComponent" for x in (e.left, e.comparators[0])) and
         any(codes_key(x, "restartCodes") == "RestartInitiated" for x in (e.left, e.comparators[0]))) else None)
     ctx.require(bool(rt), "anchor missing: restart test in postMortemCheck")
+    check_refusals_everywhere(ctx, ctl)
     fin = match.nodes_calling(c5, lambda c: call_name(c) == "TransitionComponentToFinalState")
     for (tn, _) in rt:
         succ = [m for (m, l2) in tn.succ if l2 == "F"]
@@ -570,6 +628,68 @@ def run(ctx) -> None:
         ok = bool(fin) and c5.exit.id not in r
         ctx.ob("C12.R7-refusal-final-state", tn.ast, ok, "a refused restart gives the component its final state" if ok else
                "a refused restart leaves the component without a final state")
+
+
+def check_refusals_everywhere(ctx, ctl) -> None:
+    """R7 for every caller of _restartComponent: whatever refusal code comes back, the component gets a final state.
+    The refusal codes are read from experiment.model.codes.restartCodes; the tests on the returned code are specialised for
+    each of them (path-sensitive on that one value)."""
+    codes_mod = ctx.repo.module("python/experiment/model/codes.py")
+    table = None
+    for n in ast.walk(codes_mod.tree):
+        if isinstance(n, ast.Assign) and any(isinstance(t, ast.Name) and t.id == "restartCodes" for t in n.targets) and isinstance(n.value, ast.Dict):
+            table = [k.value for k in n.value.keys if isinstance(k, ast.Constant)]
+    ctx.require(bool(table) and "RestartInitiated" in table, "anchor missing: experiment.model.codes.restartCodes")
+    refusals = [k for k in table if k != "RestartInitiated"]
+    n_sites = 0
+    for q, fn in ctl.functions.items():
+        calls = [c for c in source.calls_in(fn, include_nested=False) if last_attr(c) == "_restartComponent"]
+        if not calls:
+            continue
+        cfg = CFG(fn)
+        ctx.analysed(fn)
+        fin = match.nodes_calling(cfg, lambda c: call_name(c) == "TransitionComponentToFinalState" or (
+            last_attr(c) == "finish" and isinstance(c.func, ast.Attribute)))
+        for call in calls:
+            n_sites += 1
+            at = [n for n in cfg.nodes if n.ast is not None and n.kind in ("stmt", "test") and any(c is call for c in own_calls(n.ast))]
+            ctx.require(bool(at), "cannot locate the CFG node of %s" % short(call, 50))
+            node = at[0]
+            var = None
+            if node.kind == "stmt" and isinstance(node.ast, ast.Assign) and len(node.ast.targets) == 1 and isinstance(node.ast.targets[0], ast.Name):
+                var = node.ast.targets[0].id
+
+            def is_result(e: ast.AST) -> bool:
+                return e is call or (var is not None and isinstance(e, ast.Name) and e.id == var)
+            tests = []
+            for tn in cfg.nodes:
+                if tn.kind != "test" or tn.ast is None:
+                    continue
+                cp = match.compare_parts(tn.ast)
+                if not cp or not isinstance(cp[1], (ast.Eq, ast.NotEq, ast.Is, ast.IsNot)):
+                    continue
+                for a, b in ((cp[0], cp[2]), (cp[2], cp[0])):
+                    k = codes_key(b, "restartCodes")
+                    if is_result(a) and k:
+                        tests.append((tn, k, isinstance(cp[1], (ast.Eq, ast.Is))))
+            for code in refusals:
+                blocked_edges = []
+                for (tn, k, eq) in tests:
+                    holds = (code == k) if eq else (code != k)
+                    blocked_edges.append((tn.id, "F" if holds else "T"))
+                starts = [node] if node.kind == "test" else [m for (m, lab) in node.succ if lab is None]
+                # the end of this component's handling: the function exit, or the next iteration of an enclosing loop
+                loop_heads = [n for n in cfg.nodes if n.kind == "for" and any(call is x for x in ast.walk(n.ast))]
+                r = cfg.reach(starts, blocked=fin, blocked_edges=blocked_edges, ignore_labels=("exc", "raise"))
+                escaped = cfg.exit.id in r or any(h.id in r for h in loop_heads)
+                ok = bool(fin) and not escaped
+                ctx.ob("C12.R7-refusal-final-state", call, ok,
+                       "%s: a restart refused with %s leads to a final state" % (q.split(".")[-1], code) if ok else
+                       "%s: when _restartComponent answers %s the component is neither restarted nor given a final state (only %s are "
+                       "handled): it stays 'running' for ever and Controller.run() never returns" % (
+                           q.split(".")[-1], code, ", ".join(sorted({k for _, k, _ in tests})) or "no codes"),
+                       construct="%s: %s => final state" % (q.split(".")[-1], code))
+    ctx.floor("C12.R7-refusal-final-state", n_sites, 2, "call sites of _restartComponent in the controller")
 
 
 def _unlimited(t: ast.AST) -> Optional[str]:
